@@ -125,7 +125,7 @@ let () =
     | id :: "W" :: ts :: now :: name :: args ->
       let out = (try
           let c = parse_cmd name args in
-          let (s', r) = step !policy !st (zi (int_of_string ts)) (zi (int_of_string now)) c in
+          let (s', r) = step !policy !st (zi (int_of_string ts)) c in
           st := s'; reply_s r
         with Failure m -> "?driver:" ^ m) in
       Printf.printf "%s\t%s\n" id out
